@@ -214,7 +214,11 @@ func rotationScenario(name string, weighted bool, eps []endpoint.Endpoint, share
 // racePass runs the same bodies free-running on the uninstrumented packages under
 // the Go race detector (checks/c13race) and reports data races inside TarsGo.
 func racePass(run *common.Run) (ran bool, races int) {
-	cmd := exec.Command("go", "test", "-race", "-count=1", "-vet=off", "./checks/c13race")
+	args := []string{"test", "-race", "-count=1", "-vet=off"}
+	if ov := os.Getenv("VERIF_EXTRA_OVERLAY"); ov != "" {
+		args = append(args, "-overlay", ov) // seeded mutants without touching /repo
+	}
+	cmd := exec.Command("go", append(args, "./checks/c13race")...)
 	cmd.Dir = common.Root()
 	out, err := cmd.CombinedOutput()
 	text := string(out)
